@@ -311,3 +311,10 @@ def family_c10(prop, fail, unit_res, repo, verif, build):
 
 
 FAMILIES["C10"] = family_c10
+
+
+def family_c12(prop, fail, unit_res, repo, verif, build):
+    return _core_replay("c12_family", lambda scratch: [scratch], repo, verif, build)
+
+
+FAMILIES["C12"] = family_c12
